@@ -258,3 +258,68 @@ Theorem pool_create_init_error_path_repaired_sound : forall a b c o,
   errs s = [] /\ (status s = false <-> (0 < nfail s)%nat) /\ (status s = false -> live s = []).
 Proof. exact pool_create_y_sound. Qed.
 Print Assumptions pool_create_init_error_path_repaired_sound.
+
+(* ================================================================== round 3 *)
+From ZV.Mem Require Import AllocBorrow AllocBorrowTheorems.
+
+(* ---- ZSTD_DCtx with ZSTD_d_refMultipleDDicts (ZV.Mem.AllocBorrow): the DDicts are BORROWED from the caller, the hash set that
+   remembers them belongs to the DCtx.  Caller [bclient]: it keeps a DDict alive from the moment ZSTD_DCtx_refDDict returned
+   success until ZSTD_DCtx_reset(parameters) / ZSTD_freeDCtx, and is free to release it otherwise - in particular after a
+   ZSTD_DCtx_refDDict that returned an error.  The REPAIRED ZSTD_DCtx_refDDict (8de9dc9), every history of create / refDDict k
+   (any expansion decision) / refDDict(NULL) / a frame decoded / parameter reset (releases the set, b70602d) / free and
+   create / free of two DDicts (by copy, by reference), every oracle, every size: the library never reads a released DDict,
+   no double free, nothing allocated after the teardown *)
+Theorem borrow_any_history_no_leak : forall a b c d ops, forallb bok ops = true -> forall o,
+  let s := fst (run o (Seq (gsession bop (bcl a b c d) ops) (btd a b c d)) init_state) in
+  live s = [] /\ errs s = [].
+Proof. exact borrow_any_history_no_leak_l. Qed.
+Print Assumptions borrow_any_history_no_leak.
+
+(* ... after every call of such a history: status = error <-> an allocation of that call failed *)
+Theorem borrow_any_history_error_iff_failure : forall a b c d ops op, forallb bok ops = true -> bok op = true -> forall o,
+  let s := fst (run o (Seq (gsession bop (bcl a b c d) ops) (bcl a b c d op)) init_state) in
+  status s = false <-> (0 < nfail s)%nat.
+Proof. exact borrow_any_history_error_iff_failure_l. Qed.
+Print Assumptions borrow_any_history_error_iff_failure.
+
+(* ... while the DCtx is alive, whatever failed before: (create DDict k if the handle is empty,) reference it and decode a frame
+   with memory available: success, the reference is recorded by the caller, no ownership error *)
+Theorem borrow_reusable_after_any_history : forall a b c d ops, forallb bok ops = true -> forall o1 o2, (forall k, fails o2 k = false) ->
+  forall k, (k <? 2) = true ->
+  let s1 := fst (run o1 (gsession bop (bcl a b c d) ops) init_state) in
+  sget s1 R_dctx <> None ->
+  let s2 := fst (run o2 (ref_then_decode a b c d k) s1) in
+  status s2 = true /\ errs s2 = [].
+Proof. exact borrow_reusable_after_any_history_l. Qed.
+Print Assumptions borrow_reusable_after_any_history.
+
+(* finding dctx-refddict-failed-call-takes-effect on ZSTD_DCtx_refDDict AS FOUND (dctx->ddict recorded before the set is created /
+   expanded): the call fails, the caller releases the DDict, the next frame reads it; the repaired code is clean on the same
+   history and oracle (which also shows that the hypotheses of the three theorems above are satisfiable) *)
+Theorem refddict_failed_call_takes_effect_refuted :
+  (exists e, snd (fst (run_b false [BCreate; BDDCreate 0 false; BRef 0; BDDFree 0; BDecomp] [4%nat] [])) = e /\ In (EUseDead (RD 0)) e)
+  /\ run_b true [BCreate; BDDCreate 0 false; BRef 0; BDDFree 0; BDecomp] [4%nat] [] = ([], [], true).
+Proof. exact refddict_failed_call_takes_effect_refuted_l. Qed.
+Print Assumptions refddict_failed_call_takes_effect_refuted.
+
+Theorem refddict_failed_expansion_takes_effect_refuted :
+  (exists e, snd (fst (run_b false [BCreate; BDDCreate 1 true; BRef 1; BDDCreate 0 true; BRef 0; BDDFree 0; BDecomp] [6%nat] [true])) = e /\ In (EUseDead (RD 0)) e)
+  /\ run_b true [BCreate; BDDCreate 1 true; BRef 1; BDDCreate 0 true; BRef 0; BDDFree 0; BDecomp] [6%nat] [true] = ([], [], true).
+Proof. exact refddict_failed_expansion_takes_effect_refuted_l. Qed.
+Print Assumptions refddict_failed_expansion_takes_effect_refuted.
+
+(* finding zbuffv04-stream-second-doors: lib/legacy/zstd_v04.c as found (sizes recorded before the malloc, inner context not
+   tested; the shared version-switch code already repaired) on the legacy model of round 2; the repaired transcription - the
+   one [legacy_any_history_*] are about, and since 498f682 / 08afd1c also the v0.4 code - is clean on the same runs *)
+Theorem zbuffv04_as_found_stale_size_refuted :
+  (exists e, snd (fst (run_l v04_as_found [LCreate; LStream 10 20; LStream 10 20] [4%nat] [true; false; false; false; false; false])) = e /\ e <> [])
+  /\ (exists e, snd (fst (run_l v04_as_found [LCreate; LStream 10 20; LStream 10 20] [5%nat] [true; false; false; false; false; false])) = e /\ e <> [])
+  /\ run_l repaired [LCreate; LStream 10 20; LStream 10 20] [5%nat] [true; false; false; false; false; false] = ([], [], true).
+Proof. exact zbuffv04_stale_size_refuted_l. Qed.
+Print Assumptions zbuffv04_as_found_stale_size_refuted.
+
+Theorem zbuffv04_as_found_unchecked_refuted :
+  (exists e, snd (fst (run_l v04_as_found [LCreate; LStream 10 20] [3%nat] [true; false; false])) = e /\ In (EUseDead X_zd) e)
+  /\ run_l repaired [LCreate; LStream 10 20] [3%nat] [true; false; false] = ([], [], true).
+Proof. exact zbuffv04_unchecked_refuted_l. Qed.
+Print Assumptions zbuffv04_as_found_unchecked_refuted.
